@@ -424,9 +424,10 @@ def _shape(t):
 
 def exclusive_parents_construct(rng, sv, doc, exclusive=True):
     """Same response key `zk` on two composite fields under two parent types, with sub-selections that give the SAME
-    key `zx` to DIFFERENT fields (`__typename` / a leaf field): VALID when the parents are two different object types
-    (mutually exclusive: names and arguments may differ), INVALID when the parents can overlap (`exclusive=False`:
-    the same object type twice). Each side reaches its `zx` field through 0, 1 or 2 levels of nested fragment spreads.
+    key `zx` to DIFFERENT fields OF ONE TYPE (`__typename` / a `String!` leaf, or two leaves of one type): VALID when
+    the parents are two different object types (mutually exclusive: names and arguments may differ, the response
+    shapes must still agree), INVALID when the parents can overlap (`exclusive=False`: the same object type twice;
+    there `__typename` / any leaf). Each side reaches its `zx` field through 0, 1 or 2 levels of nested fragment spreads.
     Returns the feature string or None (document modified in place)."""
     lists = []
 
@@ -489,19 +490,31 @@ def exclusive_parents_construct(rng, sv, doc, exclusive=True):
                         if sv.kind(t2) in ("object", "interface") and noreq(f2) and _shape(f1["type"]) == _shape(f2["type"]) \
                                 and (exclusive or f1["name"] == f2["name"]):
                             leafs = [g for g in sv.fields(t2) if sv.is_leaf(gs.ty_base(g["type"])) and noreq(g)]
+                            if exclusive:
+                                # VALID twin: the two `zx` must have IDENTICAL types (SameResponseShape does not care
+                                # about exclusive parents); names differ: `__typename` vs a `String!` leaf, or two
+                                # different leaves of one type
+                                STRNN = ("nonNull", ("named", "String"))
+                                cands = [(None, g) for g in leafs if g["type"] == STRNN]
+                                if sv.kind(t1) in ("object", "interface"):
+                                    cands += [(g1, g) for g in leafs for g1 in sv.fields(t1)
+                                              if g1["type"] == g["type"] and g1["name"] != g["name"] and noreq(g1)]
+                                leafs = cands
+                            else:
+                                leafs = [(None, g) for g in leafs]
                             if leafs:
                                 pairs.append((o1, f1, t1, o2, f2, t2, leafs))
         if not pairs:
             continue
         o1, f1, t1, o2, f2, t2, leafs = rng.choice(pairs)
-        g2 = rng.choice(leafs)
+        g1, g2 = rng.choice(leafs)
         if host is not None:
             hostsels, h = host
             l = []
             hostsels.insert(rng.randint(0, len(hostsels)),
                             {"k": "field", "alias": "zh" + "".join(rng.choice("abcdefghij") for _ in range(3)), "name": h["name"],
                              "args": [], "dirs": [], "sels": l})
-        inner1 = {"k": "field", "alias": "zx", "name": "__typename", "args": [], "dirs": [], "sels": None}
+        inner1 = {"k": "field", "alias": "zx", "name": g1["name"] if g1 else "__typename", "args": [], "dirs": [], "sels": None}
         inner2 = {"k": "field", "alias": "zx", "name": g2["name"], "args": [], "dirs": [], "sels": None}
         uid = "".join(rng.choice("abcdefghij") for _ in range(3))
         newfrags = []
@@ -526,6 +539,65 @@ def exclusive_parents_construct(rng, sv, doc, exclusive=True):
     return None
 
 
+def abstract_lists(sv, doc):
+    """selection lists whose parent type is an interface or a union"""
+    lists = []
+
+    def walk(sels, parent, d, depth):
+        if parent and sv.kind(parent) in ("interface", "union") and not (d["k"] == "op" and d["op"] == "subscription" and depth == 0):
+            lists.append((sels, parent))
+        for s in sels:
+            if s["k"] == "field" and s["sels"] is not None:
+                f = sv.field(parent, s["name"]) if parent and s["name"] != "__typename" else None
+                walk(s["sels"], gs.ty_base(f["type"]) if f else None, d, depth + 1)
+            elif s["k"] == "inline":
+                walk(s["sels"], s["on"] or parent, d, depth + 1)
+    for d in doc["defs"]:
+        if d["k"] == "op":
+            walk(d["sels"], sv.root(d["op"]), d, 0)
+        elif d["k"] == "frag":
+            walk(d["sels"], d["on"], d, 0)
+    return lists
+
+
+def typename_alias_construct(rng, sv, doc, conflict):
+    """`... on O1 { zt: __typename } ... on O2 { zt: leaf }` under an abstract parent with O1 != O2 (mutually exclusive
+    parents: only the response shapes are compared). `__typename` is `String!`: VALID iff the leaf is `String!`
+    (`conflict=False`), INVALID otherwise (`conflict=True`; bug-hunt finding C06/3). One side optionally behind a
+    fragment. Returns the feature or None (document modified in place)."""
+    STRNN = ("nonNull", ("named", "String"))
+    lists = abstract_lists(sv, doc)
+    rng.shuffle(lists)
+    noreq = lambda f: not any(a["type"][0] == "nonNull" and a.get("default") is None for a in f.get("args") or [])
+    for l, par in lists:
+        objs = sorted(sv.possible(par))
+        opts = [(o1, o2, g) for o1 in objs for o2 in objs if o1 != o2 for g in sv.fields(o2)
+                if sv.is_leaf(gs.ty_base(g["type"])) and noreq(g) and ((g["type"] != STRNN) == conflict)]
+        if not opts:
+            continue
+        o1, o2, g = rng.choice(opts)
+        key = "zt" + "".join(rng.choice("abcdefghij") for _ in range(3))
+        a_sels = [{"k": "field", "alias": key, "name": "__typename", "args": [], "dirs": [], "sels": None}]
+        b_sels = [{"k": "field", "alias": key, "name": g["name"], "args": [], "dirs": [], "sels": None}]
+        how = rng.choice(["inline", "fragment-a", "fragment-b"])
+        if how == "fragment-a":
+            name = "Zt%sa" % key
+            doc["defs"].insert(rng.randint(0, len(doc["defs"])), {"k": "frag", "name": name, "on": o1, "dirs": [], "sels": a_sels})
+            a = {"k": "spread", "name": name, "dirs": []}
+        else:
+            a = {"k": "inline", "on": o1, "dirs": [], "sels": a_sels}
+        if how == "fragment-b":
+            name = "Zt%sb" % key
+            doc["defs"].insert(rng.randint(0, len(doc["defs"])), {"k": "frag", "name": name, "on": o2, "dirs": [], "sels": b_sels})
+            b = {"k": "spread", "name": name, "dirs": []}
+        else:
+            b = {"k": "inline", "on": o2, "dirs": [], "sels": b_sels}
+        i = rng.randint(0, len(l))
+        l[i:i] = [a, b] if rng.random() < 0.5 else [b, a]
+        return "typename-vs-leaf-exclusive-parents-%s:%s" % (how, "String!-vs-" + _shape(g["type"]) + "-" + sv.kind(gs.ty_base(g["type"])))
+    return None
+
+
 def gen_document(rng, desc, size=2):
     for _ in range(20):
         g = DocGen(rng, desc, size)
@@ -536,6 +608,10 @@ def gen_document(rng, desc, size=2):
         feat = exclusive_parents_construct(rng, g.sv, doc, exclusive=True)
         if feat:
             doc["_features"] = [feat]
+    if rng.random() < 0.6:
+        feat = typename_alias_construct(rng, g.sv, doc, conflict=False)
+        if feat:
+            doc.setdefault("_features", []).append(feat)
     return doc
 
 
@@ -642,6 +718,7 @@ def def_tokens(d):
                 out += ["$" + v["name"], ":", gs.ty_str(v["type"])]
                 if v["default"] is not None:
                     out += ["="] + value_tokens(v["default"])
+                out += dirs_tokens(v.get("dirs") or [])
             out.append(")")
         out += dirs_tokens(d["dirs"])
     return out + sels_tokens(d["sels"])
